@@ -301,7 +301,60 @@ for _root in ("src", "inc"):
         OUR_FILES.update(f for f in _fn if f.endswith((".cpp", ".hpp")))
 
 
+# ------------------------------------------------------------------ libFuzzer on the text readers
+SEEDS = ["0 1.0 0.0\n1 2.0 -1.0\n2 3.0 0.5\n", "0.5 0.5\n-1.0 2.0\n3 3\n", "", "0 1 2", "1 1e10 nan\n"]
+
+
+def run_fuzz(case):
+    wd = cli.scratch("c17f")
+    exe = os.environ["VERIF_FUZZ"]
+    env = dict(os.environ, VERIF_FUZZ_DIR=wd, ASAN_OPTIONS="detect_leaks=0:abort_on_error=0", UBSAN_OPTIONS="print_stacktrace=1:halt_on_error=1")
+    if case.get("input_hex") is not None:
+        f = os.path.join(wd, "replay.bin")
+        open(f, "wb").write(bytes.fromhex(case["input_hex"]))
+        p = subprocess.run([exe, f], cwd=wd, env=env, stdout=subprocess.PIPE, stderr=subprocess.PIPE, timeout=120)
+        err = p.stderr.decode(errors="replace")
+        bad = p.returncode != 0 and (SAN_RE.search(err) or "ORACLE-VIOLATION" in err or "deadly signal" in err)
+        return Outcome(not bad, True, ["fuzz_replay"], "fuzz input reproduces: " + (signature(err) or err[-300:]), sig=signature(err) or "c17:fuzz:oracle")
+    corpus = os.path.join(wd, "corpus")
+    os.makedirs(corpus)
+    for i, sd in enumerate(SEEDS):
+        for w in range(4):
+            # FuzzedDataProvider takes integrals from the END of the input: [gap selector, csr, size, reader]
+            open(os.path.join(corpus, "s%d_%d" % (i, w)), "wb").write(sd.encode() + bytes([1, 1, 32, w]))
+    imp = os.path.join(os.environ.get("VERIF_REPO", "/repo"), "test", "impedance.dat")
+    if os.path.exists(imp):
+        open(os.path.join(corpus, "imp"), "wb").write(open(imp, "rb").read()[:2000] + bytes([1, 1, 64, 0]))
+        open(os.path.join(corpus, "imp1"), "wb").write(open(imp, "rb").read()[:2000] + bytes([2, 1, 64, 1]))
+    cmd = [exe, "-seed=%d" % case["seed"], "-runs=%d" % case["runs"], "-max_len=2048", "-artifact_prefix=" + wd + "/", "-print_final_stats=1",
+           "-timeout=20", corpus]
+    try:
+        p = subprocess.run(cmd, cwd=wd, env=env, stdout=subprocess.PIPE, stderr=subprocess.PIPE, timeout=case.get("wall", 600))
+    except subprocess.TimeoutExpired:
+        return Outcome(True, False, ["fuzz_timeout"], discard=True)
+    err = p.stderr.decode(errors="replace")
+    arts = [f for f in os.listdir(wd) if f.startswith("crash-") or f.startswith("leak-")]
+    m = re.search(r"stat::number_of_executed_units: (\d+)", err)
+    execs = int(m.group(1)) if m else 0
+    cov = re.findall(r"cov: (\d+)", err)
+    met = {"fuzz_execs": execs, "fuzz_cov": int(cov[-1]) if cov else 0}
+    if arts:
+        data = open(os.path.join(wd, arts[0]), "rb").read()
+        case["input_hex"] = data.hex()
+        return Outcome(False, True, ["fuzz"], "libFuzzer found a failing input (%d bytes, reader %d): %s" % (len(data), data[-1] if data else -1, signature(err) or err[-400:]),
+                       sig=signature(err) or "c17:fuzz:oracle", metrics=met)
+    return Outcome(True, True, ["fuzz"], metrics=met)
+
+
+def fuzz_enum(tier):
+    k = 16
+    runs = 12000 if tier == "quick" else 500000
+    return [dict(seed=1000 + i, runs=runs, wall=300 if tier == "quick" else 2400) for i in range(k)]
+
+
 def subs(tier):
-    return [Sub("sanitizer", cases(), run_case, quick=400, thorough=12000, needs=("san", "h5x"), shrink_budget=60),
+    return [Sub("fuzz", st.just({}), run_fuzz, quick=1, thorough=1, needs=("fuzz",), enum=fuzz_enum,
+                max_wall={"quick": 400, "thorough": 3000}),
+            Sub("sanitizer", cases(), run_case, quick=400, thorough=12000, needs=("san", "h5x"), shrink_budget=60),
             Sub("valgrind", cases(tiny=True), run_valgrind, quick=24, thorough=400, needs=("rel", "h5x"), shrink_budget=6,
                 max_wall={"quick": 500, "thorough": 3000})]
